@@ -181,7 +181,33 @@ def make_body(ctx, node, is_td_hint=None):
   return body
 
 
+def _diag_shape(ctx, key, codes):
+  """How a diagnoser of this run hands over its diagnoses (a concretisation of
+  the model's "failure diagnosis"): declared always_fail (the Diagnosis objects
+  then carry no is_failure flag of their own) whenever every code of the run's
+  script for this diagnoser is a failure code, and the result as a single
+  Diagnosis, a list, a tuple or a generator."""
+  fails = [c for c in codes if c not in ('0', '!')]
+  always = bool(fails) and all(c.isupper() for c in fails)
+  import zlib
+  h = zlib.crc32(repr((key, sorted((k, repr(v)) for k, v in ctx.script.items()))).encode())
+  return always and h % 5 != 0, ('one', 'list', 'gen', 'tuple')[h % 4]
+
+
+def _deliver(diag, how):
+  if how == 'one':
+    return diag
+  if how == 'list':
+    return [diag]
+  if how == 'tuple':
+    return (diag,)
+  return (d for d in [diag])
+
+
 def make_diag(ctx, phase_name, i):
+  codes = [t[2][i] for t in ctx.script.get(phase_name, []) if len(t) > 2 and len(t[2]) > i]
+  always, how = _diag_shape(ctx, 'dg_%s_%d' % (phase_name, i), codes)
+
   def run(phase_record):
     code = ctx.cur[phase_name][2][i]
     ctx.calls.append(dict(n='diag:%s:%d' % (phase_name, i), b=code))
@@ -190,11 +216,16 @@ def make_diag(ctx, phase_name, i):
       raise DiagError('diagnoser raises')
     if code == '0':
       return None
-    return htf.Diagnosis(R[code], 'desc', is_failure=code.isupper())
-  return diagnoses_lib.PhaseDiagnoser(R, name='dg_%s_%d' % (phase_name, i), run_func=run)
+    if always:
+      return _deliver(htf.Diagnosis(R[code], 'desc'), how)
+    return _deliver(htf.Diagnosis(R[code], 'desc', is_failure=code.isupper()), how)
+  return diagnoses_lib.PhaseDiagnoser(R, name='dg_%s_%d' % (phase_name, i), run_func=run, always_fail=always)
 
 
 def make_tdiag(ctx, i):
+  codes = [t[0] for t in ctx.script.get('tdiag%d' % i, [])]
+  always, how = _diag_shape(ctx, 'tdg_%d' % i, codes)
+
   def run(test_rec, store):
     b, _, _ = ctx.next_tokens('tdiag%d' % i)
     ctx.events.append(('tdiag', i))
@@ -203,8 +234,10 @@ def make_tdiag(ctx, i):
       raise DiagError('test diagnoser raises')
     if b == '0':
       return None
-    return htf.Diagnosis(R[b], 'desc', is_failure=b.isupper())
-  return diagnoses_lib.TestDiagnoser(R, name='tdg_%d' % i, run_func=run)
+    if always:
+      return _deliver(htf.Diagnosis(R[b], 'desc'), how)
+    return _deliver(htf.Diagnosis(R[b], 'desc', is_failure=b.isupper()), how)
+  return diagnoses_lib.TestDiagnoser(R, name='tdg_%d' % i, run_func=run, always_fail=always)
 
 
 def make_plug(ctx, cid, bad, tdmode):
